@@ -1,8 +1,968 @@
-(* C12: theorems about Model/Join.v. *)
-From Coq Require Import Reals Lra List ZArith Lia Bool PArith.
+(* C12: theorems about Model/Join.v -- structural part (any field), then geometry over R. *)
+From Coq Require Import Reals Nsatz Lra Psatz List ZArith Lia Bool PArith Sorted.
 From Molli Require Import Common.Field3 Common.Field3R Model.Rot Proofs.Rot Proofs.RotMotion Model.Join.
 Import ListNotations.
 
+(* ------------------------------------------------------------------ lists *)
+Lemma pmem_spec x l : pmem x l = true <-> In x l.
+Proof.
+  unfold pmem. rewrite existsb_exists. split.
+  - intros [y [Hy E]]. apply Pos.eqb_eq in E. now subst.
+  - intros H. exists x. split; [exact H | apply Pos.eqb_refl].
+Qed.
+
+Lemma combine_app {A B} (l1 l2 : list A) (m1 m2 : list B) :
+  length l1 = length m1 -> combine (l1 ++ l2) (m1 ++ m2) = combine l1 m1 ++ combine l2 m2.
+Proof.
+  revert m1. induction l1 as [|a l1 IH]; intros [|b m1] H; simpl in *; try discriminate; [reflexivity|].
+  f_equal. apply IH. lia.
+Qed.
+Lemma combine_map_r {A B C} (g : B -> C) (l : list A) (m : list B) :
+  combine l (map g m) = map (fun p => (fst p, g (snd p))) (combine l m).
+Proof. revert m. induction l as [|a l IH]; intros [|b m]; simpl; try reflexivity. now rewrite IH. Qed.
+
+Definition key_not (ap : positive) {B} (p : positive * B) : bool := negb (Pos.eqb (fst p) ap).
+Definition id_not (ap : positive) (a : atom) : bool := negb (Pos.eqb (a_id a) ap).
+
+(* the boolean mask over the atom list and the filter over the atom list delete the same positions *)
+Lemma mask_loc_combine {B} (ap : positive) (l : list atom) (X : list B) :
+  length X = length l ->
+  combine (ids (filter (id_not ap) l)) (mask_rows (loc ap l) X) = filter (key_not ap) (combine (ids l) X)
+  /\ length (mask_rows (loc ap l) X) = length (filter (id_not ap) l).
+Proof.
+  revert X. induction l as [|a l IH]; intros [|x X] H; simpl in *; try discriminate; [split; reflexivity|].
+  assert (H' : length X = length l) by lia. destruct (IH X H') as [E L].
+  clear IH. unfold id_not, key_not in *. simpl in *. destruct (Pos.eqb (a_id a) ap); simpl; split; congruence.
+Qed.
+
+Lemma filter_ext_in' {A} (f g : A -> bool) (l : list A) :
+  (forall a, In a l -> f a = g a) -> filter f l = filter g l.
+Proof.
+  induction l as [|a l IH]; intros H; simpl; [reflexivity|].
+  rewrite (H a (or_introl eq_refl)), IH; [reflexivity|]. intros; apply H; now right.
+Qed.
+
+Lemma filter_partition_length {A} (f : A -> bool) (l : list A) :
+  (length (filter f l) + length (filter (fun a => negb (f a)) l))%nat = length l.
+Proof. induction l as [|a l IH]; simpl; [reflexivity|]. destruct (f a); simpl; lia. Qed.
+
+Lemma in_ids a l : In a l -> In (a_id a) (ids l).
+Proof. intros H. unfold ids. now apply in_map. Qed.
+
+(* deleting the one atom called x from a list with unique names shortens it by exactly one *)
+Lemma filter_id_not_length x l : NoDup (ids l) -> In x (ids l) -> S (length (filter (id_not x) l)) = length l.
+Proof.
+  induction l as [|a l IH]; intros ND Hin; simpl in *; [destruct Hin|].
+  inversion ND as [|? ? Hna ND']; subst. unfold id_not at 1. destruct (Pos.eqb_spec (a_id a) x) as [E|NE]; simpl.
+  - f_equal. subst x. rewrite <- (filter_ext_in' (fun _ => true)).
+    + clear. induction l; simpl; congruence.
+    + intros b Hb. unfold id_not. destruct (Pos.eqb_spec (a_id b) (a_id a)) as [E|]; [|reflexivity].
+      exfalso. apply Hna. rewrite <- E. now apply in_ids.
+  - f_equal. apply IH; [exact ND'|]. destruct Hin as [E|H]; [contradiction | exact H].
+Qed.
+
+Lemma NoDup_app_disjoint {A} (l m : list A) x : NoDup (l ++ m) -> In x l -> In x m -> False.
+Proof.
+  induction l as [|a l IH]; intros ND Hl Hm; [destruct Hl|].
+  simpl in ND. inversion ND as [|? ? Hna ND']; subst. destruct Hl as [->|Hl].
+  - apply Hna. apply in_or_app. now right.
+  - now apply IH.
+Qed.
+Lemma NoDup_app_l {A} (l m : list A) : NoDup (l ++ m) -> NoDup l.
+Proof.
+  induction l as [|a l IH]; intros ND; [constructor|]. simpl in ND. inversion ND as [|? ? Hna ND']; subst.
+  constructor; [|now apply IH]. intros H. apply Hna. apply in_or_app. now left.
+Qed.
+Lemma NoDup_app_r {A} (l m : list A) : NoDup (l ++ m) -> NoDup m.
+Proof. induction l as [|a l IH]; intros ND; [exact ND|]. simpl in ND. inversion ND; subst. now apply IH. Qed.
+
+(* ------------------------------------------------------------------ get_atom, neighbours *)
+Lemma nth_error_In_ids l k a : nth_error l k = Some a -> In (a_id a) (ids l).
+Proof. intros H. apply in_ids. eapply nth_error_In; eauto. Qed.
+
+Lemma get_atom_in l s x : get_atom l s = Some x -> In x (ids l).
+Proof.
+  destruct s as [y|i]; simpl.
+  - destruct (pmem y (ids l)) eqn:E; [|discriminate]. intros H. injection H; intros <-. now apply pmem_spec.
+  - match goal with |- match ?kk with _ => _ end = _ -> _ => destruct kk as [k|] end; [|discriminate].
+    destruct (nth_error l k) as [a|] eqn:E; [|discriminate]. simpl. intros H. injection H; intros <-.
+    eapply nth_error_In_ids; eauto.
+Qed.
+
+Definition wf_bonds {F} (f : frag F) : Prop :=
+  forall b, In b (fr_bonds f) -> In (b_a1 b) (ids (fr_atoms f)) /\ In (b_a2 b) (ids (fr_atoms f)).
+
+Lemma first_neighbour_in {F} (f : frag F) x y : wf_bonds f -> first_neighbour (fr_bonds f) x = Some y -> In y (ids (fr_atoms f)).
+Proof.
+  intros W. unfold first_neighbour. destruct (filter (incident x) (fr_bonds f)) as [|b r] eqn:E; [discriminate|].
+  intros H. injection H; intros <-. assert (Hb : In b (fr_bonds f)).
+  { assert (In b (filter (incident x) (fr_bonds f))) by (rewrite E; now left). apply filter_In in H0. apply H0. }
+  destruct (W b Hb). unfold other_end. destruct (Pos.eqb (b_a1 b) x); assumption.
+Qed.
+
+(* with exactly one bond at x, every bond at x leads to the same neighbour *)
+Lemma sole_neighbour bs x y b : n_bonds_with bs x = 1%nat -> first_neighbour bs x = Some y ->
+  In b bs -> incident x b = true -> other_end x b = y.
+Proof.
+  unfold n_bonds_with, first_neighbour. intros N H Hb Hi.
+  assert (Hf : In b (filter (incident x) bs)) by (apply filter_In; now split).
+  destruct (filter (incident x) bs) as [|b0 [|b1 r]]; simpl in N; try discriminate.
+  injection H; intros <-. destruct Hf as [->|[]]. reflexivity.
+Qed.
+
+Lemma incident_ends x b : incident x b = true -> x = b_a1 b \/ x = b_a2 b.
+Proof. unfold incident. rewrite orb_true_iff, !Pos.eqb_eq. intuition. Qed.
+Lemma same_ends_ends x y b : same_ends x y b = true -> (b_a1 b = x /\ b_a2 b = y) \/ (b_a1 b = y /\ b_a2 b = x).
+Proof. unfold same_ends. rewrite orb_true_iff, !andb_true_iff, !Pos.eqb_eq. intuition. Qed.
+
+(* ------------------------------------------------------------------ inversion of join *)
+Section Inversion.
+Context {F : Type} (o : Fops F).
+
+Definition rows (f : frag F) : list (positive * vec F) := combine (ids (fr_atoms f)) (fr_coords f).
+
+(* what join resolved its arguments to *)
+Record resolved (A B : frag F) (s1 s2 : asel) (a1 a2 a1r a2r : positive) (r1 p1 r2 p2 : vec F) : Prop := mkResolved {
+  rs_a1 : get_atom (fr_atoms A) s1 = Some a1;
+  rs_a2 : get_atom (fr_atoms B) s2 = Some a2;
+  rs_n1 : n_bonds_with (fr_bonds A) a1 = 1%nat;
+  rs_n2 : n_bonds_with (fr_bonds B) a2 = 1%nat;
+  rs_a1r : first_neighbour (fr_bonds A) a1 = Some a1r;
+  rs_a2r : first_neighbour (fr_bonds B) a2 = Some a2r;
+  rs_lenA : length (fr_coords A) = length (fr_atoms A);
+  rs_lenB : length (fr_coords B) = length (fr_atoms B);
+  rs_r1 : coord_of A a1r = Some r1;
+  rs_p1 : coord_of A a1 = Some p1;
+  rs_r2 : coord_of B a2r = Some r2;
+  rs_p2 : coord_of B a2 = Some p2
+}.
+
+Definition product (A B : frag F) (op : jopts F) (w : jwit F) (a1 a2 a1r a2r : positive) (r1 p1 r2 p2 : vec F) : frag F :=
+  let v1 := vsub o p1 r1 in
+  let v2 := vsub o p2 r2 in
+  mkFrag (filter (keep_atom a1 a2) (fr_atoms A ++ fr_atoms B))
+         (filter (keep_bond a1 a2) (fr_bonds A ++ fr_bonds B) ++ [mkBond a1r a2r (o_nb op)])
+         (map (place_A o r1) (mask_rows (loc a1 (fr_atoms A)) (fr_coords A))
+          ++ map (place_B o (join_rot o v1 (w_n1 w) v2 (w_n2 w) (w_ov w)) (join_shift o v1 (w_n1 w) (bond_len o op))
+                            (join_twist o v1 (w_n1 w) (w_twist w)) r2)
+                 (mask_rows (loc a2 (fr_atoms B)) (fr_coords B)))
+         (join_charge (o_charge op) (fr_charge A) (fr_charge B))
+         (join_mult (o_mult op) (fr_mult A) (fr_mult B)).
+
+Lemma join_inv A B s1 s2 op w P : join o A B s1 s2 op w = Some P ->
+  exists a1 a2 a1r a2r r1 p1 r2 p2,
+    resolved A B s1 s2 a1 a2 a1r a2r r1 p1 r2 p2 /\
+    P = product A B op w a1 a2 a1r a2r r1 p1 r2 p2 /\
+    (forall b, In b (filter (keep_bond a1 a2) (fr_bonds A ++ fr_bonds B)) ->
+       In (b_a1 b) (ids (fr_atoms P)) /\ In (b_a2 b) (ids (fr_atoms P))) /\
+    In a1r (ids (fr_atoms P)) /\ In a2r (ids (fr_atoms P)).
+Proof.
+  unfold join.
+  destruct (get_atom (fr_atoms A) s1) as [a1|] eqn:G1; [|discriminate].
+  destruct (get_atom (fr_atoms B) s2) as [a2|] eqn:G2; [|discriminate].
+  destruct (Nat.eqb (n_bonds_with (fr_bonds A) a1) 1 && Nat.eqb (n_bonds_with (fr_bonds B) a2) 1)%bool eqn:NB; [|discriminate].
+  apply andb_true_iff in NB. destruct NB as [N1 N2]. apply Nat.eqb_eq in N1. apply Nat.eqb_eq in N2.
+  destruct (first_neighbour (fr_bonds A) a1) as [a1r|] eqn:R1; [|discriminate].
+  destruct (first_neighbour (fr_bonds B) a2) as [a2r|] eqn:R2; [|discriminate].
+  cbv zeta.
+  match goal with |- (if ?c then _ else _) = _ -> _ => destruct c eqn:CK; [|discriminate] end.
+  rewrite !andb_true_iff in CK. destruct CK as [[[[CB C1] C2] LA] LB].
+  apply Nat.eqb_eq in LA. apply Nat.eqb_eq in LB. apply pmem_spec in C1. apply pmem_spec in C2.
+  destruct (coord_of A a1r) as [r1|] eqn:X1; [|discriminate].
+  destruct (coord_of A a1) as [p1|] eqn:X2; [|discriminate].
+  destruct (coord_of B a2r) as [r2|] eqn:X3; [|discriminate].
+  destruct (coord_of B a2) as [p2|] eqn:X4; [|discriminate].
+  intros H. injection H; intros <-. clear H.
+  exists a1, a2, a1r, a2r, r1, p1, r2, p2. split; [constructor; assumption|]. split; [reflexivity|].
+  split; [|split; assumption].
+  intros b Hb. rewrite forallb_forall in CB. specialize (CB b Hb). apply andb_true_iff in CB.
+  destruct CB as [E1 E2]. apply pmem_spec in E1. apply pmem_spec in E2. split; assumption.
+Qed.
+
+(* join looks at its designators only through get_atom *)
+Lemma join_sel_ext A B s1 s1' s2 s2' op w :
+  get_atom (fr_atoms A) s1 = get_atom (fr_atoms A) s1' -> get_atom (fr_atoms B) s2 = get_atom (fr_atoms B) s2' ->
+  join o A B s1 s2 op w = join o A B s1' s2' op w.
+Proof. intros E1 E2. unfold join. rewrite E1, E2. reflexivity. Qed.
+
+(* ------------------------------------------------------------------ atoms and bonds of the product *)
+Section Structure.
+Variables (A B : frag F) (s1 s2 : asel) (op : jopts F) (w : jwit F).
+Variables (a1 a2 a1r a2r : positive) (r1 p1 r2 p2 : vec F).
+Hypothesis RS : resolved A B s1 s2 a1 a2 a1r a2r r1 p1 r2 p2.
+Hypothesis ND : NoDup (ids (fr_atoms A) ++ ids (fr_atoms B)).       (* two distinct molecules, names unique *)
+Let P := product A B op w a1 a2 a1r a2r r1 p1 r2 p2.
+
+Lemma a1_in_A : In a1 (ids (fr_atoms A)). Proof. eapply get_atom_in, (rs_a1 _ _ _ _ _ _ _ _ _ _ _ _ RS). Qed.
+Lemma a2_in_B : In a2 (ids (fr_atoms B)). Proof. eapply get_atom_in, (rs_a2 _ _ _ _ _ _ _ _ _ _ _ _ RS). Qed.
+Lemma a2_notin_A : ~ In a2 (ids (fr_atoms A)).
+Proof. intros H. exact (NoDup_app_disjoint _ _ _ ND H a2_in_B). Qed.
+Lemma a1_notin_B : ~ In a1 (ids (fr_atoms B)).
+Proof. intros H. exact (NoDup_app_disjoint _ _ _ ND a1_in_A H). Qed.
+
+Lemma keep_on_A : filter (keep_atom a1 a2) (fr_atoms A) = filter (id_not a1) (fr_atoms A).
+Proof.
+  apply filter_ext_in'. intros a Ha. unfold keep_atom, id_not.
+  destruct (Pos.eqb_spec (a_id a) a2) as [E|]; [|now rewrite andb_true_r].
+  exfalso. apply a2_notin_A. rewrite <- E. now apply in_ids.
+Qed.
+Lemma keep_on_B : filter (keep_atom a1 a2) (fr_atoms B) = filter (id_not a2) (fr_atoms B).
+Proof.
+  apply filter_ext_in'. intros a Ha. unfold keep_atom, id_not.
+  destruct (Pos.eqb_spec (a_id a) a1) as [E|]; [|reflexivity].
+  exfalso. apply a1_notin_B. rewrite <- E. now apply in_ids.
+Qed.
+
+(* exactly the atoms of A and B except the two attachment points: same records (element, label, type, ... all
+   carried over), A's first, order kept, two fewer than the inputs together *)
+Theorem product_atoms :
+  fr_atoms P = filter (id_not a1) (fr_atoms A) ++ filter (id_not a2) (fr_atoms B) /\
+  (forall a, In a (fr_atoms P) <-> (In a (fr_atoms A) \/ In a (fr_atoms B)) /\ a_id a <> a1 /\ a_id a <> a2) /\
+  S (S (length (fr_atoms P))) = (length (fr_atoms A) + length (fr_atoms B))%nat /\
+  NoDup (ids (fr_atoms P)).
+Proof.
+  subst P. unfold product. cbv zeta. simpl fr_atoms. rewrite filter_app, keep_on_A, keep_on_B.
+  split; [reflexivity|]. split; [|split].
+  - intros a. rewrite <- keep_on_A, <- keep_on_B, <- filter_app, filter_In, in_app_iff. unfold keep_atom.
+    rewrite andb_true_iff, !negb_true_iff, !Pos.eqb_neq. tauto.
+  - rewrite app_length.
+    pose proof (filter_id_not_length a1 (fr_atoms A) (NoDup_app_l _ _ ND) a1_in_A).
+    pose proof (filter_id_not_length a2 (fr_atoms B) (NoDup_app_r _ _ ND) a2_in_B). lia.
+  - unfold ids. rewrite map_app.
+    assert (G : forall (f : atom -> bool) l m, NoDup (map a_id l ++ map a_id m) -> NoDup (map a_id (filter f l) ++ map a_id (filter f m))).
+    { clear. intros f l. induction l as [|a l IH]; intros m H; simpl in *.
+      - induction m as [|b m IHm]; simpl in *; [constructor|]. inversion H; subst.
+        destruct (f b); simpl; [constructor|]; auto. intros Hin. apply H2. apply in_map_iff in Hin.
+        destruct Hin as [c [E Hc]]. apply filter_In in Hc. rewrite <- E. apply in_map. apply Hc.
+      - inversion H; subst. destruct (f a); simpl; [constructor|]; auto.
+        intros Hin. apply H2. apply in_app_or in Hin. apply in_or_app. destruct Hin as [Hin|Hin]; [left|right];
+          apply in_map_iff in Hin; destruct Hin as [c [E Hc]]; apply filter_In in Hc; rewrite <- E; apply in_map; apply Hc. }
+    assert (E : forall l, filter (id_not a1) l = filter (fun a => id_not a1 a) l) by reflexivity.
+    (* two different predicates on the two halves: go through keep_atom, which is the same on both *)
+    rewrite <- keep_on_A, <- keep_on_B. apply G. exact ND.
+Qed.
+
+Hypothesis WA : wf_bonds A.
+Hypothesis WB : wf_bonds B.
+
+Lemma a1r_in_A : In a1r (ids (fr_atoms A)). Proof. eapply first_neighbour_in; [exact WA | apply (rs_a1r _ _ _ _ _ _ _ _ _ _ _ _ RS)]. Qed.
+Lemma a2r_in_B : In a2r (ids (fr_atoms B)). Proof. eapply first_neighbour_in; [exact WB | apply (rs_a2r _ _ _ _ _ _ _ _ _ _ _ _ RS)]. Qed.
+
+Lemma keepb_on_A : filter (keep_bond a1 a2) (fr_bonds A) = filter (fun b => negb (incident a1 b)) (fr_bonds A).
+Proof.
+  apply filter_ext_in'. intros b Hb. unfold keep_bond. destruct (incident a2 b) eqn:E; [|now rewrite andb_true_r].
+  exfalso. apply a2_notin_A. destruct (WA b Hb). apply incident_ends in E. destruct E as [->| ->]; assumption.
+Qed.
+Lemma keepb_on_B : filter (keep_bond a1 a2) (fr_bonds B) = filter (fun b => negb (incident a2 b)) (fr_bonds B).
+Proof.
+  apply filter_ext_in'. intros b Hb. unfold keep_bond. destruct (incident a1 b) eqn:E; [|reflexivity].
+  exfalso. apply a1_notin_B. destruct (WB b Hb). apply incident_ends in E. destruct E as [->| ->]; assumption.
+Qed.
+
+(* exactly the bonds of A and B that do not touch an attachment point (two fewer: one per attachment point),
+   plus one new bond between the former neighbours, present exactly once *)
+Theorem product_bonds :
+  fr_bonds P = filter (fun b => negb (incident a1 b)) (fr_bonds A) ++ filter (fun b => negb (incident a2 b)) (fr_bonds B)
+               ++ [mkBond a1r a2r (o_nb op)] /\
+  (forall b, In b (fr_bonds P) <->
+     ((In b (fr_bonds A) \/ In b (fr_bonds B)) /\ incident a1 b = false /\ incident a2 b = false) \/ b = mkBond a1r a2r (o_nb op)) /\
+  S (length (fr_bonds P)) = (length (fr_bonds A) + length (fr_bonds B))%nat /\
+  length (filter (same_ends a1r a2r) (fr_bonds P)) = 1%nat /\
+  (forall b, In b (fr_bonds A) -> incident a1 b = true -> other_end a1 b = a1r) /\
+  (forall b, In b (fr_bonds B) -> incident a2 b = true -> other_end a2 b = a2r).
+Proof.
+  subst P. unfold product. cbv zeta. simpl fr_bonds. rewrite filter_app, keepb_on_A, keepb_on_B, <- app_assoc.
+  split; [reflexivity|]. split; [|split; [|split; [|split]]].
+  - intros b. rewrite <- keepb_on_A, <- keepb_on_B, app_assoc, <- filter_app, in_app_iff, filter_In, in_app_iff.
+    unfold keep_bond. rewrite andb_true_iff, !negb_true_iff. simpl. intuition.
+  - rewrite !app_length. simpl.
+    pose proof (filter_partition_length (incident a1) (fr_bonds A)) as PA.
+    pose proof (filter_partition_length (incident a2) (fr_bonds B)) as PB.
+    pose proof (rs_n1 _ _ _ _ _ _ _ _ _ _ _ _ RS) as N1. pose proof (rs_n2 _ _ _ _ _ _ _ _ _ _ _ _ RS) as N2.
+    unfold n_bonds_with in N1, N2. lia.
+  - rewrite !filter_app, !app_length.
+    assert (ZA : filter (same_ends a1r a2r) (filter (fun b => negb (incident a1 b)) (fr_bonds A)) = []).
+    { destruct (filter (same_ends a1r a2r) (filter (fun b => negb (incident a1 b)) (fr_bonds A))) as [|b r] eqn:E; [reflexivity|].
+      exfalso. assert (Hb : In b (b :: r)) by now left. rewrite <- E in Hb. apply filter_In in Hb. destruct Hb as [Hb S].
+      apply filter_In in Hb. destruct Hb as [Hb _]. destruct (WA b Hb) as [I1 I2].
+      apply same_ends_ends in S.
+      assert (In a2r (ids (fr_atoms A))) by (destruct S as [[_ <-]|[<- _]]; assumption).
+      exact (NoDup_app_disjoint _ _ _ ND H a2r_in_B). }
+    assert (ZB : filter (same_ends a1r a2r) (filter (fun b => negb (incident a2 b)) (fr_bonds B)) = []).
+    { destruct (filter (same_ends a1r a2r) (filter (fun b => negb (incident a2 b)) (fr_bonds B))) as [|b r] eqn:E; [reflexivity|].
+      exfalso. assert (Hb : In b (b :: r)) by now left. rewrite <- E in Hb. apply filter_In in Hb. destruct Hb as [Hb S].
+      apply filter_In in Hb. destruct Hb as [Hb _]. destruct (WB b Hb) as [I1 I2]. apply same_ends_ends in S.
+      assert (In a1r (ids (fr_atoms B))) by (destruct S as [[<- _]|[_ <-]]; assumption).
+      exact (NoDup_app_disjoint _ _ _ ND a1r_in_A H). }
+    rewrite ZA, ZB. simpl. unfold same_ends. simpl. rewrite !Pos.eqb_refl. reflexivity.
+  - intros b Hb Hi. eapply sole_neighbour; eauto using (rs_n1 _ _ _ _ _ _ _ _ _ _ _ _ RS), (rs_a1r _ _ _ _ _ _ _ _ _ _ _ _ RS).
+  - intros b Hb Hi. eapply sole_neighbour; eauto using (rs_n2 _ _ _ _ _ _ _ _ _ _ _ _ RS), (rs_a2r _ _ _ _ _ _ _ _ _ _ _ _ RS).
+Qed.
+
+(* each row of the product is the moved row of its source atom *)
+Theorem product_rows :
+  let v1 := vsub o p1 r1 in let v2 := vsub o p2 r2 in
+  rows P = map (fun q => (fst q, place_A o r1 (snd q))) (filter (key_not a1) (rows A))
+        ++ map (fun q => (fst q, place_B o (join_rot o v1 (w_n1 w) v2 (w_n2 w) (w_ov w)) (join_shift o v1 (w_n1 w) (bond_len o op))
+                                          (join_twist o v1 (w_n1 w) (w_twist w)) r2 (snd q)))
+               (filter (key_not a2) (rows B)) /\
+  length (fr_coords P) = length (fr_atoms P).
+Proof.
+  cbv zeta. subst P. unfold rows, product. cbv zeta. simpl fr_atoms. simpl fr_coords.
+  rewrite filter_app, keep_on_A, keep_on_B.
+  destruct (mask_loc_combine a1 (fr_atoms A) (fr_coords A) (rs_lenA _ _ _ _ _ _ _ _ _ _ _ _ RS)) as [EA LA].
+  destruct (mask_loc_combine a2 (fr_atoms B) (fr_coords B) (rs_lenB _ _ _ _ _ _ _ _ _ _ _ _ RS)) as [EB LB].
+  split.
+  - unfold ids at 1. rewrite map_app. fold (ids (filter (id_not a1) (fr_atoms A))). fold (ids (filter (id_not a2) (fr_atoms B))).
+    rewrite combine_app by (unfold ids; rewrite !map_length; symmetry; exact LA).
+    rewrite !combine_map_r, EA, EB. reflexivity.
+  - rewrite !app_length, !map_length, LA, LB. reflexivity.
+Qed.
+End Structure.
+End Inversion.
+
+(* ================================================================== geometry over R *)
+Local Open Scope R_scope.
+
+Lemma coord_of_in_rows {F} (f : frag F) x r : coord_of f x = Some r -> In (x, r) (rows f).
+Proof.
+  unfold coord_of, rows. generalize (fr_coords f). induction (fr_atoms f) as [|a l IH]; intros X; simpl; [discriminate|].
+  destruct (Pos.eqb_spec (a_id a) x) as [E|NE].
+  - destruct X as [|x0 X]; simpl; [discriminate|]. intros H. injection H; intros <-. left. now rewrite E.
+  - destruct (find_pos x l) as [i|] eqn:Q; simpl; [|discriminate]. destruct X as [|x0 X]; simpl; [discriminate|].
+    intros H. right. apply IH. exact H.
+Qed.
+
+Lemma place_A_rigid (r1 : vecR) : rigid_map (place_A ROps r1).
+Proof. unfold place_A. split; intros; vdestruct; f3; ring. Qed.
+
+Lemma place_B_rigid (R : matR) (t : vecR) (T : option matR) (r2 : vecR) :
+  proper R -> match T with Some M => proper M | None => True end -> rigid_map (place_B ROps R t T r2).
+Proof.
+  intros HR HT.
+  assert (G : rigid_map (fun x => vadd ROps (vm ROps (place_A ROps r2 x) R) t)).
+  { apply (rigid_compose (fun x => vm ROps (place_A ROps r2 x) R) (fun y => vadd ROps y t)); [|apply rigid_vadd].
+    apply (rigid_compose (place_A ROps r2) (fun y => vm ROps y R)); [apply place_A_rigid | apply rigid_vm, HR]. }
+  destruct T as [M|]; unfold place_B.
+  - apply (rigid_compose (fun x => vadd ROps (vm ROps (place_A ROps r2 x) R) t) (fun y => vm ROps y M)); [exact G | apply rigid_vm, HT].
+  - exact G.
+Qed.
+
+Lemma norm2_vopp (v : vecR) : norm2 ROps (vopp ROps v) = norm2 ROps v.
+Proof. vdestruct. f3. ring. Qed.
+Lemma dot_vopp_r (x v : vecR) : dot ROps x (vopp ROps v) = - dot ROps x v.
+Proof. vdestruct. f3. ring. Qed.
+
+Lemma join_tol_range : 0 <= join_tol ROps < 1.
+Proof. unfold join_tol. cbv [fofZ fdiv ROps]. lra. Qed.
+
+(* the rotation used by join: proper, and it takes B's attachment direction to MINUS A's *)
+Lemma join_rot_correct (v1 v2 ov : vecR) (n1 n2 : R) :
+  0 < n1 -> n1 * n1 = norm2 ROps v1 -> 0 < n2 -> n2 * n2 = norm2 ROps v2 -> unit ov -> dot ROps ov v1 = 0 ->
+  proper (join_rot ROps v1 n1 v2 n2 ov) /\
+  vm ROps (vdiv ROps v2 n2) (join_rot ROps v1 n1 v2 n2 ov) = vdiv ROps (vopp ROps v1) n1.
+Proof.
+  intros H1 E1 H2 E2 U O. unfold join_rot. apply rot_from_vectors_correct; try assumption.
+  - apply join_tol_range.
+  - now rewrite norm2_vopp.
+  - rewrite dot_vopp_r, O. ring.
+Qed.
+
+Lemma join_shift_scale (v1 : vecR) (n1 d : R) : join_shift ROps v1 n1 d = vscale ROps (d / n1) v1.
+Proof. unfold join_shift. vdestruct. f3. unfold Rdiv. veq; ring. Qed.
+Lemma norm2_vscale (q : R) (v : vecR) : norm2 ROps (vscale ROps q v) = q * q * norm2 ROps v.
+Proof. vdestruct. f3. ring. Qed.
+Lemma join_shift_norm (v1 : vecR) (n1 d : R) : 0 < n1 -> n1 * n1 = norm2 ROps v1 -> norm2 ROps (join_shift ROps v1 n1 d) = d * d.
+Proof.
+  intros Hn E. rewrite join_shift_scale, norm2_vscale, <- E. field. lra.
+Qed.
+
+Lemma vdiv_vscale (v : vecR) (n : R) : n <> 0 -> v = vscale ROps n (vdiv ROps v n).
+Proof. intros Hn. vdestruct. f3. veq; field; exact Hn. Qed.
+Lemma vscale_vscale (a b : R) (v : vecR) : vscale ROps a (vscale ROps b v) = vscale ROps (a * b) v.
+Proof. vdestruct. f3. veq; ring. Qed.
+Lemma vdiv_vopp_scale (v : vecR) (n : R) : vdiv ROps (vopp ROps v) n = vscale ROps (- / n) v.
+Proof. vdestruct. f3. unfold Rdiv. veq; ring. Qed.
+Lemma vm_vzero_l (M : matR) (x : vecR) : vm ROps (vsub ROps x x) M = vzero ROps.
+Proof. vdestruct. f3. veq; ring. Qed.
+Lemma vadd_vzero_l (t : vecR) : vadd ROps (vzero ROps) t = t.
+Proof. vdestruct. f3. veq; ring. Qed.
+
+Lemma vsub_vzero_r (y : vecR) : vsub ROps y (vzero ROps) = y.
+Proof. vdestruct. f3. veq; ring. Qed.
+Lemma shift_cancel (y z : vecR) : vsub ROps (vadd ROps y z) (vadd ROps (vzero ROps) z) = y.
+Proof. vdestruct. f3. veq; ring. Qed.
+
+Definition twist_ok (tw : option (R * R)) : Prop := match tw with Some (s, c) => s * s + c * c = 1 | None => True end.
+
+Lemma join_twist_correct (v1 : vecR) (n1 : R) (tw : option (R * R)) :
+  0 < n1 -> n1 * n1 = norm2 ROps v1 -> twist_ok tw ->
+  match join_twist ROps v1 n1 tw with
+  | Some M => proper M /\ forall k, vm ROps (vscale ROps k v1) M = vscale ROps k v1
+  | None => True
+  end.
+Proof.
+  intros Hn E Ht. destruct tw as [[s c]|]; simpl; [|exact I]. simpl in Ht.
+  destruct (rot_from_axis_correct v1 n1 s c Hn E Ht) as [PM [Fx _]]. split; [exact PM|].
+  intros k. rewrite vm_vscale, Fx. reflexivity.
+Qed.
+
+(* the hypotheses under which the geometry makes sense: the two attachment atoms do not sit on their neighbours
+   (n1, n2 are the lengths of the attachment vectors), ov is a unit vector orthogonal to v1, the rotamer rotation
+   (if any) is a rotation *)
+Definition geom_ok (v1 v2 : vecR) (w : jwit R) : Prop :=
+  0 < w_n1 w /\ w_n1 w * w_n1 w = norm2 ROps v1 /\ 0 < w_n2 w /\ w_n2 w * w_n2 w = norm2 ROps v2 /\
+  unit (w_ov w) /\ dot ROps (w_ov w) v1 = 0 /\ twist_ok (w_twist w).
+
+Section Geometry.
+Variables (v1 v2 r1 r2 p2 : vecR) (w : jwit R) (d : R).
+Hypothesis G : geom_ok v1 v2 w.
+Hypothesis V2 : v2 = vsub ROps p2 r2.
+Let gA := place_A ROps r1.
+Let gB := place_B ROps (join_rot ROps v1 (w_n1 w) v2 (w_n2 w) (w_ov w)) (join_shift ROps v1 (w_n1 w) d)
+                   (join_twist ROps v1 (w_n1 w) (w_twist w)) r2.
+
+(* A and B are each moved by a rigid, handedness-preserving map; the former neighbours end up joined by the
+   vector (d/|v1|) v1: length |d|, direction of A's former attachment vector; B's former attachment vector ends up
+   pointing the opposite way (B faces A); with or without the rotamer rotation *)
+Theorem join_maps :
+  rigid_map gA /\ rigid_map gB /\
+  gA r1 = vzero ROps /\
+  gB r2 = vscale ROps (d / w_n1 w) v1 /\
+  vsub ROps (gB r2) (gA r1) = vscale ROps (d / w_n1 w) v1 /\
+  norm2 ROps (vsub ROps (gB r2) (gA r1)) = d * d /\
+  vsub ROps (gB p2) (gB r2) = vscale ROps (- (w_n2 w / w_n1 w)) v1.
+Proof.
+  destruct G as [H1 [E1 [H2 [E2 [U [O TW]]]]]].
+  destruct (join_rot_correct v1 v2 (w_ov w) (w_n1 w) (w_n2 w) H1 E1 H2 E2 U O) as [PR MAP].
+  pose proof (join_twist_correct v1 (w_n1 w) (w_twist w) H1 E1 TW) as JT.
+  assert (RA : rigid_map gA) by apply place_A_rigid.
+  assert (RB : rigid_map gB).
+  { apply place_B_rigid; [exact PR|]. destruct (join_twist ROps v1 (w_n1 w) (w_twist w)); [apply JT | exact I]. }
+  assert (ZA : gA r1 = vzero ROps) by (subst gA; unfold place_A; destruct r1 as [[? ?] ?]; f3; veq; ring).
+  assert (TB : gB r2 = vscale ROps (d / w_n1 w) v1).
+  { subst gB. unfold place_B. rewrite vm_vzero_l, vadd_vzero_l, join_shift_scale.
+    destruct (join_twist ROps v1 (w_n1 w) (w_twist w)) as [M|]; [apply JT | reflexivity]. }
+  assert (BV : vsub ROps (gB r2) (gA r1) = vscale ROps (d / w_n1 w) v1).
+  { rewrite ZA, TB. apply vsub_vzero_r. }
+  split; [exact RA|]. split; [exact RB|]. split; [exact ZA|]. split; [exact TB|]. split; [exact BV|]. split.
+  - rewrite BV, <- join_shift_scale. apply join_shift_norm; assumption.
+  - (* linear part applied to v2 *)
+    assert (N2 : w_n2 w <> 0) by lra. assert (N1 : w_n1 w <> 0) by lra.
+    assert (L : vm ROps v2 (join_rot ROps v1 (w_n1 w) v2 (w_n2 w) (w_ov w)) = vscale ROps (- (w_n2 w / w_n1 w)) v1).
+    { rewrite (vdiv_vscale v2 (w_n2 w) N2) at 1. rewrite vm_vscale, MAP, vdiv_vopp_scale, vscale_vscale.
+      f_equal. unfold Rdiv. ring. }
+    subst gB. unfold place_B.
+    destruct (join_twist ROps v1 (w_n1 w) (w_twist w)) as [M|].
+    + rewrite <- vm_vsub, vm_vzero_l, <- V2, shift_cancel, L. apply JT.
+    + rewrite vm_vzero_l, <- V2, shift_cancel. exact L.
+Qed.
+End Geometry.
+
+(* ------------------------------------------------------------------ the requested bond length *)
+Lemma fzero_b_R (x : R) : fzero_b ROps x = true <-> x = 0.
+Proof.
+  unfold fzero_b. cbv [fleb f0 ROps]. rewrite andb_true_iff, !Rleb_true. lra.
+Qed.
+Lemma f_or_some (x y : R) : x <> 0 -> f_or ROps (Some x) y = x.
+Proof. intros H. unfold f_or. destruct (fzero_b ROps x) eqn:E; [apply fzero_b_R in E; contradiction | reflexivity]. Qed.
+Lemma f_or_falsy (y : R) : f_or ROps (Some 0) y = y /\ f_or ROps None y = y.
+Proof. split; [|reflexivity]. unfold f_or. destruct (fzero_b ROps 0) eqn:E; [reflexivity|]. assert (fzero_b ROps 0 = true) by now apply fzero_b_R. congruence. Qed.
+
+(* dist given (and not 0): that length; otherwise the sum of the two covalent radii (carbon's for an element
+   without one); 1.5 only if that sum is 0 *)
+Lemma bond_len_requested (op : jopts R) (d : R) : o_dist op = Some d -> d <> 0 -> bond_len ROps op = d.
+Proof. intros E H. unfold bond_len. rewrite E. now apply f_or_some. Qed.
+Lemma bond_len_default (op : jopts R) :
+  o_dist op = None -> expected_length ROps (o_rcov1 op) (o_rcov2 op) (o_rcovC op) <> 0 ->
+  bond_len ROps op = expected_length ROps (o_rcov1 op) (o_rcov2 op) (o_rcovC op).
+Proof. intros E H. unfold bond_len. rewrite E. simpl f_or at 1. now apply f_or_some. Qed.
+Lemma expected_length_radii (ra rb rC : R) : ra <> 0 -> rb <> 0 -> expected_length ROps (Some ra) (Some rb) rC = ra + rb.
+Proof. intros Ha Hb. unfold expected_length. now rewrite !f_or_some. Qed.
+
+(* ------------------------------------------------------------------ charge and multiplicity *)
 Lemma join_charge_spec (q : option Z) (qA qB : Z) :
   join_charge q qA qB = match q with Some v => v | None => (qA + qB)%Z end.
 Proof. unfold join_charge, or_int, override. destruct q as [v|]; [destruct (Z.eqb_spec v 0)|destruct (Z.eqb_spec (qA + qB) 0)]; lia. Qed.
+Lemma join_mult_spec (m : option Z) (mA mB : Z) :
+  override m (mA + mB - 1) <> 0%Z -> join_mult m mA mB = match m with Some v => v | None => (mA + mB - 1)%Z end.
+Proof. unfold join_mult, or_int, override. intros H. destruct m as [v|]; [destruct (Z.eqb_spec v 0)|destruct (Z.eqb_spec (mA + mB - 1) 0)]; simpl in *; lia. Qed.
+(* recorded finding C12:mult:zero-becomes-one, characterised exactly *)
+Lemma join_mult_zero (m : option Z) (mA mB : Z) : override m (mA + mB - 1) = 0%Z -> join_mult m mA mB = 1%Z.
+Proof. unfold join_mult, or_int. intros ->. reflexivity. Qed.
+(* finding 24 (repaired): with `x or default` an override of 0 is dropped *)
+Lemma override_or_drops_zero (dflt : Z) : override_or (Some 0%Z) dflt = dflt /\ override (Some 0%Z) dflt = 0%Z.
+Proof. split; reflexivity. Qed.
+
+(* ------------------------------------------------------------------ the deterministic orthogonal vector *)
+Lemma fabs_R (x : R) : fabs ROps x = Rabs x.
+Proof.
+  unfold fabs. cbv [fleb f0 fopp ROps]. destruct (Rleb 0 x) eqn:E.
+  - apply Rleb_true in E. symmetry. apply Rabs_right. lra.
+  - apply Rleb_false in E. symmetry. apply Rabs_left. exact E.
+Qed.
+Lemma abs_le_sq (x y : R) : Rabs x <= Rabs y -> x * x <= y * y.
+Proof. intros H. apply Rsqr_le_abs_1 in H. exact H. Qed.
+Lemma abs_lt_sq (x y : R) : Rabs x < Rabs y -> x * x <= y * y.
+Proof. intros H. apply Rsqr_lt_abs_1 in H. unfold Rsqr in H. lra. Qed.
+
+Lemma least_axis_spec (b : vecR) : unit b ->
+  let e := least_axis ROps b in unit e /\ 3 * (dot ROps e b * dot ROps e b) <= 1.
+Proof.
+  unfold unit. destruct b as [[x y] z]. intros U. f3_in U. unfold least_axis. rewrite !fabs_R. cbv [fleb ROps].
+  destruct (Rleb (Rabs x) (Rabs y)) eqn:E1; [apply Rleb_true, abs_le_sq in E1 | apply Rleb_false, abs_lt_sq in E1].
+  - destruct (Rleb (Rabs x) (Rabs z)) eqn:E2; [apply Rleb_true, abs_le_sq in E2 | apply Rleb_false, abs_lt_sq in E2];
+      cbv zeta; f3; split; try ring; nra.
+  - destruct (Rleb (Rabs y) (Rabs z)) eqn:E2; [apply Rleb_true, abs_le_sq in E2 | apply Rleb_false, abs_lt_sq in E2];
+      cbv zeta; f3; split; try ring; nra.
+Qed.
+
+Lemma gram_schmidt (e b : vecR) : unit e -> unit b ->
+  let k := dot ROps e b in
+  dot ROps (vsub ROps e (vscale ROps k b)) b = 0 /\ norm2 ROps (vsub ROps e (vscale ROps k b)) = 1 - k * k.
+Proof. unfold unit. vdestruct. intros Ue Ub. f3_in Ue. f3_in Ub. cbv zeta. f3. split; nsatz. Qed.
+
+Lemma det_ort_spec (b : vecR) : unit b ->
+  dot ROps (det_ort ROps b) b = 0 /\ 2 / 3 <= norm2 ROps (det_ort ROps b).
+Proof.
+  intros Ub. destruct (least_axis_spec b Ub) as [Ue K]. cbv zeta in Ue, K.
+  unfold det_ort. cbv zeta. destruct (gram_schmidt (least_axis ROps b) b Ue Ub) as [O N]. cbv zeta in O, N.
+  split; [exact O|]. rewrite N. lra.
+Qed.
+
+(* the repaired choice satisfies what the rotation theorems ask of ov: a unit vector orthogonal to v1.
+   (A square root nort of |det_ort|^2 exists: that squared length is at least 2/3.) *)
+Theorem det_ov_valid (v1 : vecR) (n1 nort : R) :
+  0 < n1 -> n1 * n1 = norm2 ROps v1 ->
+  0 < nort -> nort * nort = norm2 ROps (det_ort ROps (vdiv ROps (vopp ROps v1) n1)) ->
+  unit (det_ov ROps v1 n1 nort) /\ dot ROps (det_ov ROps v1 n1 nort) v1 = 0.
+Proof.
+  intros H1 E1 Hn En. unfold det_ov.
+  assert (Ub : unit (vdiv ROps (vopp ROps v1) n1)) by (apply unit_vdiv; [exact H1 | now rewrite norm2_vopp]).
+  destruct (det_ort_spec _ Ub) as [O _]. set (ort := det_ort ROps (vdiv ROps (vopp ROps v1) n1)) in *.
+  split; [apply unit_vdiv; assumption|].
+  rewrite dot_vdiv_r, dot_vopp_r in O.
+  assert (D : dot ROps ort v1 = 0).
+  { assert (N1 : n1 <> 0) by lra. apply (Rmult_eq_reg_r (/ n1)); [|now apply Rinv_neq_0_compat]. unfold Rdiv in O. lra. }
+  rewrite dot_comm, dot_vdiv_r, dot_comm, D. unfold Rdiv. ring.
+Qed.
+
+(* ------------------------------------------------------------------ hidden state *)
+(* outside the antiparallel branch the rotation does not look at ov at all *)
+Lemma join_rot_general_ignores_ov (v1 v2 ov ov' : vecR) (n1 n2 : R) :
+  Rleb (dot ROps (vdiv ROps v2 n2) (vdiv ROps (vopp ROps v1) n1)) (- (1) + join_tol ROps) = false ->
+  join_rot ROps v1 n1 v2 n2 ov = join_rot ROps v1 n1 v2 n2 ov'.
+Proof.
+  intros H. unfold join_rot, rot_from_vectors.
+  change (fleb ROps (dot ROps (vdiv ROps v2 n2) (vdiv ROps (vopp ROps v1) n1)) (fadd ROps (fopp ROps (f1 ROps)) (join_tol ROps)))
+    with (Rleb (dot ROps (vdiv ROps v2 n2) (vdiv ROps (vopp ROps v1) n1)) (- (1) + join_tol ROps)).
+  rewrite H. reflexivity.
+Qed.
+
+(* inside it, two equally valid choices of ov give different rotations: before the repair (ov drawn from
+   np.random) the result of join was not a function of its arguments (finding 23) *)
+Lemma antiparallel_depends_on_ov :
+  let a : vecR := (1, 0, 0) in let b : vecR := (-1, 0, 0) in let ov : vecR := (0, 1, 0) in let ov' : vecR := (0, 0, 1) in
+  unit a /\ unit b /\ unit ov /\ unit ov' /\ dot ROps ov b = 0 /\ dot ROps ov' b = 0 /\
+  antiparallel ROps a b ov <> antiparallel ROps a b ov'.
+Proof.
+  cbv zeta. unfold unit. repeat split; try (f3; ring).
+  intros H. apply (f_equal (fun M => vm ROps (0, 1, 0) M)) in H.
+  unfold antiparallel, rodrigues in H. f3_in H. injection H. intros _ H2 _. field_simplify in H2. lra.
+Qed.
+
+(* ------------------------------------------------------------------ iterated joins (molli combine) *)
+Lemma filter_filter {A} (f g : A -> bool) (l : list A) : filter g (filter f l) = filter (fun a => f a && g a)%bool l.
+Proof. induction l as [|a l IH]; simpl; [reflexivity|]. destruct (f a); simpl; [destruct (g a)|]; now rewrite IH. Qed.
+
+Lemma split_at {A} (d : A) (l : list A) (n : nat) : (n < length l)%nat -> l = firstn n l ++ nth n l d :: skipn (S n) l.
+Proof.
+  revert n. induction l as [|a l IH]; intros n H; simpl in H; [lia|]. destruct n as [|n]; simpl; [reflexivity|].
+  f_equal. apply IH. lia.
+Qed.
+Lemma nth_in_firstn {A} (d : A) (l : list A) (k n : nat) : (k < n)%nat -> (k < length l)%nat -> In (nth k l d) (firstn n l).
+Proof.
+  revert k n. induction l as [|a l IH]; intros k n H1 H2; simpl in H2; [lia|].
+  destruct n as [|n]; [lia|]. destruct k as [|k]; simpl; [now left|]. right. apply IH; lia.
+Qed.
+Lemma in_firstn {A} (l : list A) n x : In x (firstn n l) -> In x l.
+Proof. revert n. induction l as [|a l IH]; intros [|n] H; simpl in *; try contradiction. destruct H as [->|H]; [now left | right; eauto]. Qed.
+Lemma NoDup_firstn {A} (l : list A) n : NoDup l -> NoDup (firstn n l).
+Proof.
+  revert n. induction l as [|a l IH]; intros n H; destruct n; simpl; try constructor.
+  - inversion H; subst. intros Hin. apply H2. eapply in_firstn. exact Hin.   (* firstn is a sub-list *)
+  - inversion H; subst. now apply IH.
+Qed.
+Lemma firstn_le_incl {A} (l : list A) (n' n : nat) (y : A) : (n' <= n)%nat -> In y (firstn n' l) -> In y (firstn n l).
+Proof.
+  revert n' n. induction l as [|a l IH]; intros [|n'] [|n] LE Hy; simpl in *; try contradiction; try lia.
+  destruct Hy as [->|Hy]; [now left | right; apply (IH n' n); [lia | exact Hy]].
+Qed.
+Lemma ids_firstn l n : ids (firstn n l) = firstn n (ids l).
+Proof. unfold ids. now rewrite firstn_map. Qed.
+
+Lemma nth_error_filter_shift {A} (keep : A -> bool) l1 x l2 rest :
+  keep x = true -> nth_error (filter keep (l1 ++ x :: l2) ++ rest) (length (filter keep l1)) = Some x.
+Proof.
+  intros K. rewrite filter_app. simpl. rewrite K, <- app_assoc, nth_error_app2 by lia. rewrite Nat.sub_diag. reflexivity.
+Qed.
+
+(* removing the (unique, kept) atom x from the kept part of a list with unique names *)
+Lemma filter_drop_one (keep : atom -> bool) (x : atom) (a2 : positive) (L : list atom) :
+  NoDup (ids L) -> In x L -> keep x = true -> (forall y, In y L -> a_id y <> a2) ->
+  S (length (filter (fun a => keep a && keep_atom (a_id x) a2 a)%bool L)) = length (filter keep L).
+Proof.
+  induction L as [|a L IH]; intros ND Hin K H2; [destruct Hin|].
+  simpl in ND. inversion ND as [|? ? Hna ND']; subst. simpl.
+  assert (A2 : Pos.eqb (a_id a) a2 = false) by (apply Pos.eqb_neq, H2; now left).
+  destruct Hin as [->|Hin].
+  - rewrite K. unfold keep_atom at 1. rewrite Pos.eqb_refl. simpl. f_equal.
+    apply f_equal. apply filter_ext_in'. intros b Hb. unfold keep_atom.
+    destruct (Pos.eqb_spec (a_id b) (a_id x)) as [E|_].
+    + exfalso. apply Hna. rewrite <- E. now apply in_ids.
+    + assert (Pos.eqb (a_id b) a2 = false) by (apply Pos.eqb_neq, H2; now right). rewrite H. simpl. now rewrite andb_true_r.
+  - assert (NE : Pos.eqb (a_id a) (a_id x) = false).
+    { apply Pos.eqb_neq. intros E. apply Hna. rewrite E. now apply in_ids. }
+    unfold keep_atom at 1. rewrite NE, A2. simpl. rewrite andb_true_r.
+    destruct (keep a); simpl; [f_equal|]; apply IH; try assumption; intros; apply H2; now right.
+Qed.
+
+Lemma NoDup_nth_ids (l : list atom) (i j : nat) (d : atom) :
+  NoDup (ids l) -> (i < length l)%nat -> (j < length l)%nat -> a_id (nth i l d) = a_id (nth j l d) -> i = j.
+Proof.
+  intros ND Hi Hj E. apply (proj1 (NoDup_nth (ids l) (a_id d)) ND); unfold ids; rewrite ?map_length; try assumption.
+  now rewrite !map_nth.
+Qed.
+
+Section Iterated.
+Context {F : Type} (o : Fops F).
+Definition dflt_atom : atom := mkAtom 1%positive false [].
+Definition name_at (core : frag F) (ap : Z) : positive := a_id (nth (Z.to_nat ap) (fr_atoms core) dflt_atom).
+
+Variables (nb : list Z) (rC : F) (core : frag F).
+Hypothesis NDc : NoDup (ids (fr_atoms core)).
+Let L := fr_atoms core.
+
+(* the state of the loop: the derivative's atom list is the core's with some atoms deleted, followed by the
+   substituent atoms added so far; `i` deletions happened, all of them BEFORE every attachment point still to come *)
+Definition loop_inv (keep : atom -> bool) (i : nat) (aps : list Z) : Prop :=
+  forall ap, In ap aps ->
+    (0 <= ap < Z.of_nat (length L))%Z /\ keep (nth (Z.to_nat ap) L dflt_atom) = true /\
+    (Z.of_nat (length (filter keep (firstn (Z.to_nat ap) L))) + Z.of_nat i = ap)%Z.
+
+Lemma index_hits (keep : atom -> bool) (i : nat) (ap : Z) (extra : list atom) :
+  (0 <= ap < Z.of_nat (length L))%Z -> keep (nth (Z.to_nat ap) L dflt_atom) = true ->
+  (Z.of_nat (length (filter keep (firstn (Z.to_nat ap) L))) + Z.of_nat i = ap)%Z ->
+  get_atom (filter keep L ++ extra) (ByIdx (ap - Z.of_nat i)) = Some (name_at core ap) /\
+  get_atom (filter keep L ++ extra) (ById (name_at core ap)) = Some (name_at core ap).
+Proof.
+  intros R K C. set (n := Z.to_nat ap). assert (Hn : (n < length L)%nat) by lia.
+  pose proof (split_at dflt_atom L n Hn) as S.
+  assert (NE : nth_error (filter keep L ++ extra) (length (filter keep (firstn n L))) = Some (nth n L dflt_atom)).
+  { rewrite S at 1. apply nth_error_filter_shift. exact K. }
+  split.
+  - unfold get_atom. replace (ap - Z.of_nat i)%Z with (Z.of_nat (length (filter keep (firstn n L)))) by (subst n; lia).
+    assert (LT : (length (filter keep (firstn n L)) < length (filter keep L ++ extra))%nat) by (apply nth_error_Some; rewrite NE; discriminate).
+    destruct (Z.leb_spec 0 (Z.of_nat (length (filter keep (firstn n L))))) as [_|]; [|lia].
+    destruct (Z.ltb_spec (Z.of_nat (length (filter keep (firstn n L)))) (Z.of_nat (length (filter keep L ++ extra)))) as [_|]; [|lia].
+    rewrite Nat2Z.id, NE. reflexivity.
+  - unfold get_atom. destruct (pmem (name_at core ap) (ids (filter keep L ++ extra))) eqn:E; [reflexivity|].
+    exfalso. assert (pmem (name_at core ap) (ids (filter keep L ++ extra)) = true); [|congruence].
+    apply pmem_spec. unfold name_at. fold L. fold n. apply in_ids. eapply nth_error_In. exact NE.
+Qed.
+
+Lemma assemble_minus_i_gen : forall (aps : list Z) (subs : list (cstep (F:=F))) (deriv : frag F) (i : nat) (keep : atom -> bool) (extra : list atom),
+  fr_atoms deriv = filter keep L ++ extra ->
+  StronglySorted Z.lt aps ->
+  loop_inv keep i aps ->
+  (forall st a2, In st subs -> first_ap (fr_atoms (fst (fst st))) = Some a2 -> ~ In a2 (ids L)) ->
+  assemble_minus_i o nb rC deriv i aps subs = assemble_named o nb rC deriv (map (name_at core) aps) subs.
+Proof.
+  induction aps as [|ap aps IH]; intros subs deriv i keep extra EA SS INV SUB.
+  - destruct subs; reflexivity.
+  - destruct subs as [|[[sub rc] w] subs]; [reflexivity|]. simpl.
+    destruct (first_ap (fr_atoms sub)) as [a2|] eqn:FA; [|reflexivity].
+    destruct (INV ap (or_introl eq_refl)) as [R [K C]].
+    destruct (index_hits keep i ap extra R K C) as [G1 G2].
+    rewrite (join_sel_ext o deriv sub (ByIdx (ap - Z.of_nat i)) (ById (name_at core ap)) (ById a2) (ById a2) (combine_opts nb rC rc) w)
+      by (first [reflexivity | rewrite EA, G1, G2; reflexivity]).
+    destruct (join o deriv sub (ById (name_at core ap)) (ById a2) (combine_opts nb rC rc) w) as [d'|] eqn:J; [|reflexivity].
+    destruct (join_inv o _ _ _ _ _ _ _ J) as [a1' [a2' [a1r [a2r [r1 [p1 [r2 [p2 [RS [EP _]]]]]]]]]].
+    assert (E1 : a1' = name_at core ap).
+    { pose proof (rs_a1 _ _ _ _ _ _ _ _ _ _ _ _ RS) as H. rewrite EA, G2 in H. congruence. }
+    assert (E2 : a2' = a2).
+    { pose proof (rs_a2 _ _ _ _ _ _ _ _ _ _ _ _ RS) as H. simpl in H. destruct (pmem a2 (ids (fr_atoms sub))); congruence. }
+    subst a1' a2'.
+    assert (A2 : ~ In a2 (ids L)) by (eapply (SUB (sub, rc, w)); [now left | exact FA]).
+    set (a1 := name_at core ap) in *.
+    apply (IH subs d' (S i) (fun a => keep a && keep_atom a1 a2 a)%bool (filter (keep_atom a1 a2) (extra ++ fr_atoms sub))).
+    + rewrite EP. unfold product. cbv zeta. simpl fr_atoms. rewrite EA, <- app_assoc, filter_app, filter_filter. reflexivity.
+    + inversion SS; assumption.
+    + intros ap' Hin. destruct (INV ap' (or_intror Hin)) as [R' [K' C']].
+      assert (LT : (ap < ap')%Z). { inversion SS as [|? ? _ FA']; subst. rewrite Forall_forall in FA'. now apply FA'. }
+      set (n := Z.to_nat ap) in *. set (n' := Z.to_nat ap') in *.
+      assert (Hn : (n < length L)%nat) by (subst n; lia). assert (Hn' : (n' < length L)%nat) by (subst n'; lia).
+      split; [exact R'|]. split.
+      * rewrite K'. unfold keep_atom. subst a1. unfold name_at. fold L. fold n. fold n'.
+        destruct (Pos.eqb_spec (a_id (nth n' L dflt_atom)) (a_id (nth n L dflt_atom))) as [E|_].
+        -- apply (NoDup_nth_ids L n' n dflt_atom NDc Hn' Hn) in E. subst n n'. lia.
+        -- destruct (Pos.eqb_spec (a_id (nth n' L dflt_atom)) a2) as [E|_]; [|reflexivity].
+           exfalso. apply A2. rewrite <- E. apply in_ids. apply nth_In. exact Hn'.
+      * assert (D : S (length (filter (fun a => keep a && keep_atom a1 a2 a)%bool (firstn n' L))) = length (filter keep (firstn n' L))).
+        { subst a1. unfold name_at. fold L. fold n. apply filter_drop_one.
+          - rewrite ids_firstn. apply NoDup_firstn. exact NDc.
+          - apply nth_in_firstn; [subst n n'; lia | exact Hn].
+          - exact K.
+          - intros y Hy E. apply A2. rewrite <- E. apply in_ids. eapply in_firstn. exact Hy. }
+        lia.
+    + intros st a2' Hst. apply (SUB st a2'). now right.
+Qed.
+
+(* The loop before the repair: when core_aps is ascending, `ap_i - i` addresses, at every step, the atom that was at
+   position ap_i of the ORIGINAL core. *)
+Theorem assemble_minus_i_addresses (aps : list Z) (subs : list (cstep (F:=F))) :
+  StronglySorted Z.lt aps ->
+  (forall ap, In ap aps -> (0 <= ap < Z.of_nat (length L))%Z) ->
+  (forall st a2, In st subs -> first_ap (fr_atoms (fst (fst st))) = Some a2 -> ~ In a2 (ids L)) ->
+  assemble_minus_i o nb rC core 0 aps subs = assemble_named o nb rC core (map (name_at core) aps) subs.
+Proof.
+  intros SS RG SUB. apply (assemble_minus_i_gen aps subs core 0%nat (fun _ => true) []); try assumption.
+  - fold L. rewrite app_nil_r. clear. induction L; simpl; congruence.
+  - intros ap Hin. split; [now apply RG|]. split; [reflexivity|].
+    assert (E : forall l : list atom, filter (fun _ => true) l = l) by (clear; induction l; simpl; congruence).
+    rewrite E, firstn_length. specialize (RG ap Hin). lia.
+Qed.
+
+(* ---- the repaired loop: shift = number of consumed attachment points that preceded ap_i ---- *)
+Definition loop_inv' (keep : atom -> bool) (done : list Z) (aps : list Z) : Prop :=
+  forall ap, In ap aps ->
+    (0 <= ap < Z.of_nat (length L))%Z /\ keep (nth (Z.to_nat ap) L dflt_atom) = true /\
+    (Z.of_nat (length (filter keep (firstn (Z.to_nat ap) L))) + shift_of done ap = ap)%Z.
+
+Lemma index_hits' (keep : atom -> bool) (done : list Z) (ap : Z) (extra : list atom) :
+  (0 <= ap < Z.of_nat (length L))%Z -> keep (nth (Z.to_nat ap) L dflt_atom) = true ->
+  (Z.of_nat (length (filter keep (firstn (Z.to_nat ap) L))) + shift_of done ap = ap)%Z ->
+  get_atom (filter keep L ++ extra) (ByIdx (ap - shift_of done ap)) = Some (name_at core ap) /\
+  get_atom (filter keep L ++ extra) (ById (name_at core ap)) = Some (name_at core ap).
+Proof.
+  intros R K C. unfold shift_of in *.
+  exact (index_hits keep (length (filter (fun j => Z.ltb j ap) done)) ap extra R K C).
+Qed.
+
+Lemma shift_of_snoc (done : list Z) (ap ap' : Z) :
+  shift_of (done ++ [ap]) ap' = (shift_of done ap' + (if Z.ltb ap ap' then 1 else 0))%Z.
+Proof. unfold shift_of. rewrite filter_app, app_length. simpl. destruct (Z.ltb ap ap'); simpl; lia. Qed.
+
+Lemma firstn_ids_differ (n' n : nat) (y : atom) :
+  (n' <= n)%nat -> (n < length L)%nat -> In y (firstn n' L) -> a_id y <> a_id (nth n L dflt_atom).
+Proof.
+  intros LE Hn Hy E.
+  assert (Hy' : In y (firstn n L)) by (eapply firstn_le_incl; eauto).
+  pose proof (split_at dflt_atom L n Hn) as SP.
+  assert (ND' : NoDup (ids (firstn n L) ++ ids (nth n L dflt_atom :: skipn (S n) L))).
+  { unfold ids. rewrite <- map_app, <- SP. exact NDc. }
+  apply (NoDup_app_disjoint _ _ (a_id y) ND'); [now apply in_ids | rewrite E; now left].
+Qed.
+
+Lemma assemble_gen : forall (aps : list Z) (subs : list (cstep (F:=F))) (deriv : frag F) (done : list Z) (keep : atom -> bool) (extra : list atom),
+  fr_atoms deriv = filter keep L ++ extra ->
+  NoDup aps ->
+  loop_inv' keep done aps ->
+  (forall st a2, In st subs -> first_ap (fr_atoms (fst (fst st))) = Some a2 -> ~ In a2 (ids L)) ->
+  assemble o nb rC deriv done aps subs = assemble_named o nb rC deriv (map (name_at core) aps) subs.
+Proof.
+  induction aps as [|ap aps IH]; intros subs deriv done keep extra EA NDa INV SUB.
+  - destruct subs; reflexivity.
+  - destruct subs as [|[[sub rc] w] subs]; [reflexivity|]. simpl.
+    destruct (first_ap (fr_atoms sub)) as [a2|] eqn:FA; [|reflexivity].
+    destruct (INV ap (or_introl eq_refl)) as [R [K C]].
+    destruct (index_hits' keep done ap extra R K C) as [G1 G2].
+    rewrite (join_sel_ext o deriv sub (ByIdx (ap - shift_of done ap)) (ById (name_at core ap)) (ById a2) (ById a2) (combine_opts nb rC rc) w)
+      by (first [reflexivity | rewrite EA, G1, G2; reflexivity]).
+    destruct (join o deriv sub (ById (name_at core ap)) (ById a2) (combine_opts nb rC rc) w) as [d'|] eqn:J; [|reflexivity].
+    destruct (join_inv o _ _ _ _ _ _ _ J) as [a1' [a2' [a1r [a2r [r1 [p1 [r2 [p2 [RS [EP _]]]]]]]]]].
+    assert (E1 : a1' = name_at core ap).
+    { pose proof (rs_a1 _ _ _ _ _ _ _ _ _ _ _ _ RS) as H. rewrite EA, G2 in H. congruence. }
+    assert (E2 : a2' = a2).
+    { pose proof (rs_a2 _ _ _ _ _ _ _ _ _ _ _ _ RS) as H. simpl in H. destruct (pmem a2 (ids (fr_atoms sub))); congruence. }
+    subst a1' a2'.
+    assert (A2 : ~ In a2 (ids L)) by (eapply (SUB (sub, rc, w)); [now left | exact FA]).
+    set (a1 := name_at core ap) in *.
+    apply (IH subs d' (done ++ [ap]) (fun a => keep a && keep_atom a1 a2 a)%bool (filter (keep_atom a1 a2) (extra ++ fr_atoms sub))).
+    + rewrite EP. unfold product. cbv zeta. simpl fr_atoms. rewrite EA, <- app_assoc, filter_app, filter_filter. reflexivity.
+    + inversion NDa; assumption.
+    + intros ap' Hin. destruct (INV ap' (or_intror Hin)) as [R' [K' C']].
+      assert (NEa : ap <> ap') by (inversion NDa; subst; intros ->; contradiction).
+      set (n := Z.to_nat ap) in *. set (n' := Z.to_nat ap') in *.
+      assert (Hn : (n < length L)%nat) by (subst n; lia). assert (Hn' : (n' < length L)%nat) by (subst n'; lia).
+      assert (NEn : n <> n') by (subst n n'; lia).
+      split; [exact R'|]. split.
+      * rewrite K'. unfold keep_atom. subst a1. unfold name_at. fold L. fold n.
+        destruct (Pos.eqb_spec (a_id (nth n' L dflt_atom)) (a_id (nth n L dflt_atom))) as [E|_].
+        -- apply (NoDup_nth_ids L n' n dflt_atom NDc Hn' Hn) in E. congruence.
+        -- destruct (Pos.eqb_spec (a_id (nth n' L dflt_atom)) a2) as [E|_]; [|reflexivity].
+           exfalso. apply A2. rewrite <- E. apply in_ids. apply nth_In. exact Hn'.
+      * rewrite shift_of_snoc. destruct (Z.ltb_spec ap ap') as [LT|GE].
+        -- assert (D : S (length (filter (fun a => keep a && keep_atom a1 a2 a)%bool (firstn n' L))) = length (filter keep (firstn n' L))).
+           { subst a1. unfold name_at. fold L. fold n. apply filter_drop_one.
+             - rewrite ids_firstn. apply NoDup_firstn. exact NDc.
+             - apply nth_in_firstn; [subst n n'; lia | exact Hn].
+             - exact K.
+             - intros y Hy E. apply A2. rewrite <- E. apply in_ids. eapply in_firstn. exact Hy. }
+           lia.
+        -- assert (D : filter (fun a => keep a && keep_atom a1 a2 a)%bool (firstn n' L) = filter keep (firstn n' L)).
+           { apply filter_ext_in'. intros y Hy. unfold keep_atom.
+             assert (Y1 : Pos.eqb (a_id y) a1 = false).
+             { apply Pos.eqb_neq. subst a1. unfold name_at. fold L. fold n. apply (firstn_ids_differ n' n y); [subst n n'; lia | exact Hn | exact Hy]. }
+             assert (Y2 : Pos.eqb (a_id y) a2 = false).
+             { apply Pos.eqb_neq. intros E. apply A2. rewrite <- E. apply in_ids. eapply in_firstn. exact Hy. }
+             rewrite Y1, Y2. simpl. now rewrite andb_true_r. }
+           rewrite D. lia.
+    + intros st a2' Hst. apply (SUB st a2'). now right.
+Qed.
+
+(* For ANY order of core_aps (no attachment point named twice), the repaired index arithmetic addresses, at every
+   step, the atom that was at position ap_i of the ORIGINAL core: the loop equals the loop that names the
+   attachment points directly. *)
+Theorem assemble_addresses (aps : list Z) (subs : list (cstep (F:=F))) :
+  NoDup aps ->
+  (forall ap, In ap aps -> (0 <= ap < Z.of_nat (length L))%Z) ->
+  (forall st a2, In st subs -> first_ap (fr_atoms (fst (fst st))) = Some a2 -> ~ In a2 (ids L)) ->
+  assemble o nb rC core [] aps subs = assemble_named o nb rC core (map (name_at core) aps) subs.
+Proof.
+  intros NDa RG SUB. apply (assemble_gen aps subs core [] (fun _ => true) []); try assumption.
+  - fold L. rewrite app_nil_r. clear. induction L; simpl; congruence.
+  - intros ap Hin. split; [now apply RG|]. split; [reflexivity|].
+    assert (E : forall l : list atom, filter (fun _ => true) l = l) by (clear; induction l; simpl; congruence).
+    rewrite E, firstn_length. unfold shift_of. simpl. specialize (RG ap Hin). lia.
+Qed.
+End Iterated.
+
+(* ================================================================== the property, assembled *)
+Lemma ids_filter_keep a1 a2 l x : In x (ids (filter (keep_atom a1 a2) l)) -> x <> a1 /\ x <> a2.
+Proof.
+  unfold ids. rewrite in_map_iff. intros [a [<- Ha]]. apply filter_In in Ha. destruct Ha as [_ K].
+  unfold keep_atom in K. rewrite andb_true_iff, !negb_true_iff, !Pos.eqb_neq in K. exact K.
+Qed.
+
+(* ---- atoms and bonds (any field of coordinates) ---- *)
+Theorem join_atoms_bonds {F : Type} (o : Fops F) (A B : frag F) (s1 s2 : asel) (op : jopts F) (w : jwit F) (P : frag F) :
+  join o A B s1 s2 op w = Some P ->
+  NoDup (ids (fr_atoms A) ++ ids (fr_atoms B)) -> wf_bonds A -> wf_bonds B ->
+  exists a1 a2 a1r a2r,
+    get_atom (fr_atoms A) s1 = Some a1 /\ get_atom (fr_atoms B) s2 = Some a2 /\
+    first_neighbour (fr_bonds A) a1 = Some a1r /\ first_neighbour (fr_bonds B) a2 = Some a2r /\
+    (fr_atoms P = filter (id_not a1) (fr_atoms A) ++ filter (id_not a2) (fr_atoms B) /\
+     (forall a, In a (fr_atoms P) <-> (In a (fr_atoms A) \/ In a (fr_atoms B)) /\ a_id a <> a1 /\ a_id a <> a2) /\
+     S (S (length (fr_atoms P))) = (length (fr_atoms A) + length (fr_atoms B))%nat /\
+     NoDup (ids (fr_atoms P))) /\
+    (fr_bonds P = filter (fun b => negb (incident a1 b)) (fr_bonds A) ++ filter (fun b => negb (incident a2 b)) (fr_bonds B)
+                  ++ [mkBond a1r a2r (o_nb op)] /\
+     (forall b, In b (fr_bonds P) <->
+        ((In b (fr_bonds A) \/ In b (fr_bonds B)) /\ incident a1 b = false /\ incident a2 b = false) \/ b = mkBond a1r a2r (o_nb op)) /\
+     S (length (fr_bonds P)) = (length (fr_bonds A) + length (fr_bonds B))%nat /\
+     length (filter (same_ends a1r a2r) (fr_bonds P)) = 1%nat /\
+     (forall b, In b (fr_bonds A) -> incident a1 b = true -> other_end a1 b = a1r) /\
+     (forall b, In b (fr_bonds B) -> incident a2 b = true -> other_end a2 b = a2r)) /\
+    (forall b, In b (fr_bonds P) -> In (b_a1 b) (ids (fr_atoms P)) /\ In (b_a2 b) (ids (fr_atoms P))) /\
+    length (fr_coords P) = length (fr_atoms P).
+Proof.
+  intros J ND WA WB.
+  destruct (join_inv o _ _ _ _ _ _ _ J) as [a1 [a2 [a1r [a2r [r1 [p1 [r2 [p2 [RS [EP [CL [I1 I2]]]]]]]]]]]].
+  exists a1, a2, a1r, a2r.
+  split; [apply (rs_a1 _ _ _ _ _ _ _ _ _ _ _ _ RS)|]. split; [apply (rs_a2 _ _ _ _ _ _ _ _ _ _ _ _ RS)|].
+  split; [apply (rs_a1r _ _ _ _ _ _ _ _ _ _ _ _ RS)|]. split; [apply (rs_a2r _ _ _ _ _ _ _ _ _ _ _ _ RS)|].
+  subst P.
+  split; [exact (product_atoms o A B s1 s2 op w a1 a2 a1r a2r r1 p1 r2 p2 RS ND)|].
+  split; [exact (product_bonds o A B s1 s2 op w a1 a2 a1r a2r r1 p1 r2 p2 RS ND WA WB)|].
+  split.
+  - intros b Hb. unfold product in Hb. cbv zeta in Hb. simpl fr_bonds in Hb. apply in_app_or in Hb. destruct Hb as [Hb|[<-|[]]].
+    + apply CL, Hb.
+    + simpl. split; assumption.
+  - apply (product_rows o A B s1 s2 op w a1 a2 a1r a2r r1 p1 r2 p2 RS ND).
+Qed.
+
+(* ---- geometry ---- *)
+Lemma moved_row {B C} (g : B -> C) (ap u : positive) (x : B) (L : list (positive * B)) :
+  In (u, x) L -> u <> ap -> In (u, g x) (map (fun q => (fst q, g (snd q))) (filter (key_not ap) L)).
+Proof.
+  intros H NE. apply in_map_iff. exists (u, x). split; [reflexivity|]. apply filter_In. split; [exact H|].
+  unfold key_not. simpl. now apply negb_true_iff, Pos.eqb_neq.
+Qed.
+
+Theorem join_rigid (A B : frag R) (s1 s2 : asel) (op : jopts R) (w : jwit R) (P : frag R) :
+  join ROps A B s1 s2 op w = Some P ->
+  NoDup (ids (fr_atoms A) ++ ids (fr_atoms B)) ->
+  exists a1 a2 a1r a2r r1 p1 r2 p2,
+    resolved A B s1 s2 a1 a2 a1r a2r r1 p1 r2 p2 /\
+    let v1 := vsub ROps p1 r1 in let v2 := vsub ROps p2 r2 in let d := bond_len ROps op in
+    (geom_ok v1 v2 w ->
+     exists gA gB : vecR -> vecR,
+       rigid_map gA /\ rigid_map gB /\
+       rows P = map (fun q => (fst q, gA (snd q))) (filter (key_not a1) (rows A))
+             ++ map (fun q => (fst q, gB (snd q))) (filter (key_not a2) (rows B)) /\
+       In (a1r, vzero ROps) (rows P) /\
+       In (a2r, vscale ROps (d / w_n1 w) v1) (rows P) /\
+       norm2 ROps (vsub ROps (vscale ROps (d / w_n1 w) v1) (vzero ROps)) = d * d /\
+       vsub ROps (gB p2) (gB r2) = vscale ROps (- (w_n2 w / w_n1 w)) v1).
+Proof.
+  intros J ND.
+  destruct (join_inv ROps _ _ _ _ _ _ _ J) as [a1 [a2 [a1r [a2r [r1 [p1 [r2 [p2 [RS [EP [CL [I1 I2]]]]]]]]]]]].
+  exists a1, a2, a1r, a2r, r1, p1, r2, p2. split; [exact RS|]. cbv zeta. intros G.
+  set (v1 := vsub ROps p1 r1) in *. set (v2 := vsub ROps p2 r2) in *. set (d := bond_len ROps op).
+  exists (place_A ROps r1),
+         (place_B ROps (join_rot ROps v1 (w_n1 w) v2 (w_n2 w) (w_ov w)) (join_shift ROps v1 (w_n1 w) d) (join_twist ROps v1 (w_n1 w) (w_twist w)) r2).
+  destruct (join_maps v1 v2 r1 r2 p2 w d G eq_refl) as [RA [RB [ZA [TB [BV [NB FC]]]]]].
+  destruct (product_rows ROps A B s1 s2 op w a1 a2 a1r a2r r1 p1 r2 p2 RS ND) as [ER _]. cbv zeta in ER.
+  fold v1 v2 d in ER. rewrite <- EP in ER.
+  assert (N1 : a1r <> a1 /\ a1r <> a2) by (rewrite EP in I1; unfold product in I1; cbv zeta in I1; simpl fr_atoms in I1; now apply ids_filter_keep in I1).
+  assert (N2 : a2r <> a1 /\ a2r <> a2) by (rewrite EP in I2; unfold product in I2; cbv zeta in I2; simpl fr_atoms in I2; now apply ids_filter_keep in I2).
+  split; [exact RA|]. split; [exact RB|]. split; [exact ER|]. split; [|split; [|split]].
+  - rewrite ER. apply in_or_app. left. rewrite <- ZA. apply moved_row; [|apply N1].
+    apply coord_of_in_rows, (rs_r1 _ _ _ _ _ _ _ _ _ _ _ _ RS).
+  - rewrite ER. apply in_or_app. right. rewrite <- TB. apply moved_row; [|apply N2].
+    apply coord_of_in_rows, (rs_r2 _ _ _ _ _ _ _ _ _ _ _ _ RS).
+  - rewrite <- TB, <- ZA. exact NB.
+  - exact FC.
+Qed.
+
+(* what "rigid" buys, spelled out on the rows: any four atoms of one fragment (attachment point excluded) are
+   found in the product at positions with the same mutual distances and the same signed volume *)
+Theorem moved_fragment_shape (g : vecR -> vecR) (ap : positive) (LX LP pre post : list (positive * vecR)) :
+  rigid_map g -> LP = pre ++ map (fun q => (fst q, g (snd q))) (filter (key_not ap) LX) ++ post ->
+  forall u0 u1 u2 u3 x0 x1 x2 x3,
+    In (u0, x0) LX -> In (u1, x1) LX -> In (u2, x2) LX -> In (u3, x3) LX ->
+    u0 <> ap -> u1 <> ap -> u2 <> ap -> u3 <> ap ->
+    exists y0 y1 y2 y3,
+      In (u0, y0) LP /\ In (u1, y1) LP /\ In (u2, y2) LP /\ In (u3, y3) LP /\
+      dist2 ROps y0 y1 = dist2 ROps x0 x1 /\
+      signed_volume ROps y0 y1 y2 y3 = signed_volume ROps x0 x1 x2 x3.
+Proof.
+  intros [GD GV] -> u0 u1 u2 u3 x0 x1 x2 x3 H0 H1 H2 H3 N0 N1 N2 N3.
+  exists (g x0), (g x1), (g x2), (g x3).
+  repeat (split; [apply in_or_app; right; apply in_or_app; left; apply moved_row; assumption|]).
+  split; [apply GD | apply GV].
+Qed.
+
+(* ---- charge / multiplicity ---- *)
+Theorem join_charge_mult {F : Type} (o : Fops F) (A B : frag F) (s1 s2 : asel) (op : jopts F) (w : jwit F) (P : frag F) :
+  join o A B s1 s2 op w = Some P ->
+  fr_charge P = match o_charge op with Some q => q | None => (fr_charge A + fr_charge B)%Z end /\
+  (override (o_mult op) (fr_mult A + fr_mult B - 1) <> 0%Z ->
+   fr_mult P = match o_mult op with Some m => m | None => (fr_mult A + fr_mult B - 1)%Z end) /\
+  (override (o_mult op) (fr_mult A + fr_mult B - 1) = 0%Z -> fr_mult P = 1%Z).
+Proof.
+  intros J. destruct (join_inv o _ _ _ _ _ _ _ J) as [a1 [a2 [a1r [a2r [r1 [p1 [r2 [p2 [_ [-> _]]]]]]]]]].
+  unfold product. cbv zeta. simpl fr_charge. simpl fr_mult.
+  split; [apply join_charge_spec|]. split; [apply join_mult_spec | apply join_mult_zero].
+Qed.
+
+(* ---- no hidden state: the repaired choice of ov is a function of v1 and meets the hypotheses ---- *)
+Theorem geom_ok_det (v1 v2 : vecR) (n1 n2 nort : R) (tw : option (R * R)) :
+  0 < n1 -> n1 * n1 = norm2 ROps v1 -> 0 < n2 -> n2 * n2 = norm2 ROps v2 ->
+  0 < nort -> nort * nort = norm2 ROps (det_ort ROps (vdiv ROps (vopp ROps v1) n1)) -> twist_ok tw ->
+  geom_ok v1 v2 (mkWit n1 n2 (det_ov ROps v1 n1 nort) tw).
+Proof.
+  intros H1 E1 H2 E2 Hn En T. destruct (det_ov_valid v1 n1 nort H1 E1 Hn En) as [U O].
+  unfold geom_ok. simpl. repeat split; assumption.
+Qed.
